@@ -43,21 +43,39 @@ def strip_comments(src):
 def eval_const_expr(expr, env):
     """Evaluate the tiny constant-expression language used in gse_standard.rs."""
     e = expr.strip()
-    e = re.sub(r"\bas\s+(usize|u16|u32|u8)\b", "", e)
-    e = re.sub(r"(?<=[0-9a-fA-F])_(?=[0-9a-fA-F])", "", e)
-    e = re.sub(r"\b(0x[0-9a-fA-F]+|0b[01]+|[0-9]+)(usize|u16|u32|u8)\b", r"\1", e)
-    if not re.fullmatch(r"[\w\s+\-*<>|&()]+", e):
+    e = re.sub(r"\bas\s+(usize|u16|u32|u64|u8)\b", "", e)
+    # numeric literals: digit separators and type suffixes (identifiers are left alone)
+    e = re.sub(r"\b\d\w*\b", lambda m: re.sub(r"(usize|u16|u32|u64|u8)$", "", m.group(0).replace("_", "")), e)
+    bits = {"u8": 8, "u16": 16, "u32": 32, "u64": 64, "usize": 64}
+    e = re.sub(r"\b(u8|u16|u32|u64|usize)::MAX\b", lambda m: str((1 << bits[m.group(1)]) - 1), e)
+    e = re.sub(r"\b(u8|u16|u32|u64|usize)::BITS\b", lambda m: str(bits[m.group(1)]), e)
+    e = re.sub(r"\b0b([01]+)\b", lambda m: str(int(m.group(1), 2)), e)
+    if not re.fullmatch(r"[\w\s+\-*/%<>|&^()]+", e):
         raise GenError(f"unsupported constant expression: {expr!r}")
+    e = re.sub(r"(?<!/)/(?!/)", "//", e)
     names = set(re.findall(r"\b[A-Za-z_]\w*\b", e)) - {"0x", "0b"}
     names = {n for n in names if not re.fullmatch(r"0[xb]\w+", n)}
     for n in names:
         if n not in env:
             raise GenError(f"constant expression {expr!r} refers to unknown name {n}")
-    return int(eval(e, {"__builtins__": {}}, dict(env)))
+    try:
+        return int(eval(e, {"__builtins__": {}}, dict(env)))
+    except Exception as ex:
+        raise GenError(f"constant expression {expr!r} could not be evaluated: {ex}")
 
 
 HARNESS = os.environ.get("VERIF_HARNESS_BIN") or os.path.join(os.path.dirname(os.path.abspath(__file__)), "..", ".cache",
                                                                "harness-target", "debug", "gse_ops")
+
+
+def probe_full(lines):
+    """like probe, but whole output lines (result | state)"""
+    import subprocess
+    if not os.path.exists(HARNESS):
+        raise GenError("shape not recognised in the source and no harness binary to probe the behaviour instead")
+    p = subprocess.run([HARNESS], input=("session probe\n" + "\n".join(lines) + "\n").encode(), stdout=subprocess.PIPE,
+                       stderr=subprocess.PIPE, timeout=120)
+    return [o for o in p.stdout.decode().split("\n")[1:] if o]
 
 
 def probe(lines):
@@ -71,33 +89,62 @@ def probe(lines):
     return [o.split(" | ")[0] for o in out if o]
 
 
+EXPECTED_CONSTS = [
+    "COMPLETE_PKT", "FIRST_PKT", "INTERMEDIATE_PKT", "END_PKT", "START_END_MASK",
+    "LABEL_6_B", "LABEL_3_B", "LABEL_BROADCAST", "LABEL_REUSE", "LABEL_TYPE_MASK",
+    "LABEL_6_B_LEN", "LABEL_3_B_LEN", "LABEL_BROADCAST_LEN", "LABEL_REUSE_LEN",
+    "FIXED_HEADER_LEN", "PROTOCOL_LEN", "FRAG_ID_LEN", "TOTAL_LENGTH_LEN", "FIRST_FRAG_LEN",
+    "GSE_LEN_MAX", "GSE_LEN_MASK", "TOTAL_LEN_MAX", "CRC_LEN", "CRC_INIT",
+    "SECOND_RANGE_PTYPE", "MAX_MANDATORY_VAL_PTYPE", "NCR_PROTOCOL_ID",
+    "INTERNAL_SIGNALING_PROTOCOL_ID", "H_LEN_MASK",
+]
+
+
 def gen_consts():
     src = strip_comments(read("src/gse_standard.rs"))
     env = {}
-    order = []
-    for m in re.finditer(r"pub\s+const\s+(\w+)\s*:\s*(\w+)\s*=\s*([^;]+);", src):
-        name, ty, expr = m.group(1), m.group(2), m.group(3)
-        env[name] = eval_const_expr(expr, env)
-        order.append((name, ty))
-    expected = [
-        "COMPLETE_PKT", "FIRST_PKT", "INTERMEDIATE_PKT", "END_PKT", "START_END_MASK",
-        "LABEL_6_B", "LABEL_3_B", "LABEL_BROADCAST", "LABEL_REUSE", "LABEL_TYPE_MASK",
-        "LABEL_6_B_LEN", "LABEL_3_B_LEN", "LABEL_BROADCAST_LEN", "LABEL_REUSE_LEN",
-        "FIXED_HEADER_LEN", "PROTOCOL_LEN", "FRAG_ID_LEN", "TOTAL_LENGTH_LEN", "FIRST_FRAG_LEN",
-        "GSE_LEN_MAX", "GSE_LEN_MASK", "TOTAL_LEN_MAX", "CRC_LEN", "CRC_INIT",
-        "SECOND_RANGE_PTYPE", "MAX_MANDATORY_VAL_PTYPE", "NCR_PROTOCOL_ID",
-        "INTERNAL_SIGNALING_PROTOCOL_ID", "H_LEN_MASK",
-    ]
-    for n in expected:
-        if n not in env:
-            raise GenError(f"constant {n} not found in src/gse_standard.rs")
+    types = {}
+    try:
+        for m in re.finditer(r"(?:pub(?:\([^)]*\))?\s+)?const\s+(\w+)\s*:\s*(\w+)\s*=\s*([^;]+);", src):
+            name, ty, expr = m.group(1), m.group(2), m.group(3)
+            env[name] = eval_const_expr(expr, env)
+            types[name] = ty
+        for n in EXPECTED_CONSTS:
+            if n not in env:
+                raise GenError(f"constant {n} not found in src/gse_standard.rs")
+    except GenError as why:
+        # fallback: the values as the compiler evaluated them, printed by the harness built from /repo
+        out = probe(["consts"])
+        if len(out) != 1 or not out[0].startswith("ok "):
+            raise GenError(f"{why}; and the harness could not report the compiled constants")
+        env = {}
+        for kv in out[0][3:].split(","):
+            k, v = kv.split("=")
+            env[k] = int(v)
+        for n in EXPECTED_CONSTS:
+            if n not in env:
+                raise GenError(f"constant {n} not reported by the harness")
+        types = {n: "compiled" for n in env}
+        print(f"gen_lean: constants taken from the compiled crate ({why})")
+    order = [(n, types[n]) for n in EXPECTED_CONSTS]
 
     # SimpleGseMemory::MIN_MARGIN
     mem = strip_comments(read("src/gse_decap/gse_decap_memory/mod.rs"))
     m = re.search(r"const\s+MIN_MARGIN\s*:\s*usize\s*=\s*([^;]+);", mem)
-    if not m:
-        raise GenError("SimpleGseMemory::MIN_MARGIN not found")
-    min_margin = eval_const_expr(m.group(1), env)
+    min_margin = None
+    if m:
+        try:
+            min_margin = eval_const_expr(m.group(1), env)
+        except GenError:
+            min_margin = None
+    if min_margin is None:
+        # behavioural fallback: capacity of the free list of a fresh 3-slot memory minus its slot count
+        out = probe(["dec_new 3 16 -"])
+        mm = re.search(r"cap=(\d+) n=(\d+)", " ".join(probe_full(["dec_new 3 16 -"])))
+        if not mm:
+            raise GenError("SimpleGseMemory::MIN_MARGIN not found and probing failed")
+        min_margin = int(mm.group(1)) - int(mm.group(2))
+        print("gen_lean: MIN_MARGIN probed from a fresh memory (definition not recognised in the source)")
 
     # ids known by SignalisationMandatoryExtensionHeaderManager (all Final(0))
     ext = strip_comments(read("src/header_extension/mod.rs"))
@@ -149,7 +196,7 @@ def gen_consts():
         "-- src/gse_standard.rs",
     ]
     for name, ty in order:
-        lines.append(f"@[simp] def {name} : Nat := {env[name]}  -- {ty} = {hex(env[name])}")
+        lines.append(f"@[simp] def {name} : Nat := {env[name]}  -- = {hex(env[name])}")
     lines += [
         "",
         "-- src/gse_decap/gse_decap_memory/mod.rs",
@@ -307,14 +354,33 @@ def gen_facts(env):
     # impl Label { fn len } and impl LabelType { fn len }
     impl_label = fn_body(lab, r"impl\s+Label\s*\{")
     impl_lt = fn_body(lab, r"impl\s+LabelType\s*\{")
-    label_len = quad(match_arms(fn_body(impl_label or "", r"fn\s+len\s*\(&self\)[^{]*\{"), "Label"), four)
-    lt_len = quad(match_arms(fn_body(impl_lt or "", r"fn\s+len\s*\(&self\)[^{]*\{"), "LabelType"), four)
+    # A shape is recognised only when the WHOLE function body fits the template (nothing before, between or
+    # after the matches that could change the value): otherwise the fact is `none`.
+    def norm(s):
+        return re.sub(r"\s+", " ", s or "").strip()
+
+    ARMS = r"\{[^{}]*\}"
+
+    def whole_match_body(body, scrutinee):
+        b = norm(body)
+        return bool(re.fullmatch(r"match " + scrutinee + " " + ARMS, b) or
+                    re.fullmatch(r"let (\w+)(?: ?: ?\w+)? = match " + scrutinee + " " + ARMS + r" ?; \1", b))
+
+    body_label_len = fn_body(impl_label or "", r"fn\s+len\s*\(&self\)[^{]*\{")
+    body_lt_len = fn_body(impl_lt or "", r"fn\s+len\s*\(&self\)[^{]*\{")
+    label_len = quad(match_arms(body_label_len, "Label"), four) if whole_match_body(body_label_len, r"\*?self") else None
+    lt_len = quad(match_arms(body_lt_len, "LabelType"), four) if whole_match_body(body_lt_len, r"\*?self") else None
     gen_hdr = fn_body(enc, r"pub\s+fn\s+generate_gse_header\s*\([^)]*\)[^{]*\{")
-    kinds = quad(match_arms(gen_hdr, "PktType"), ["CompletePkt", "FirstFragPkt", "IntermediateFragPkt", "EndFragPkt"])
-    lts = quad(match_arms(gen_hdr, "LabelType"), four)
+    hdr_ok = bool(re.fullmatch(
+        r"let (\w+) ?: ?u16 = match pkt_type " + ARMS + r" ?; let (\w+) ?: ?u16 = match label_type " + ARMS + r" ?; "
+        r"let (\w+) ?: ?u16 = \(\1 & START_END_MASK\) \| \(\2 & LABEL_TYPE_MASK\) \| \(gse_len & GSE_LEN_MASK\) ?; \3",
+        norm(gen_hdr)))
+    kinds = quad(match_arms(gen_hdr, "PktType"), ["CompletePkt", "FirstFragPkt", "IntermediateFragPkt", "EndFragPkt"]) if hdr_ok else None
+    lts = quad(match_arms(gen_hdr, "LabelType"), four) if hdr_ok else None
     # Extension::len
     impl_ext = fn_body(ext, r"impl\s+Extension\s*\{")
-    ext_arms = match_arms(fn_body(impl_ext or "", r"pub\s+fn\s+len\s*\(&self\)[^{]*\{"), "ExtensionData")
+    body_ext_len = fn_body(impl_ext or "", r"pub\s+fn\s+len\s*\(&self\)[^{]*\{")
+    ext_arms = match_arms(body_ext_len, "ExtensionData") if whole_match_body(body_ext_len, r"&?self\.data") else None
     ext_fact = None
     if ext_arms and all(k in ext_arms for k in ["Data2", "Data4", "Data6", "Data8", "NoData"]):
         vals = []
@@ -345,11 +411,21 @@ def gen_facts(env):
     new_body = fn_body(enc, r"pub\s+fn\s+new\s*\(crc_calculator\s*:\s*C\)[^{]*\{")
     enc_new = None
     if new_body:
+        # recognised only when the whole body is one struct literal (anything else — a `let`, a call after the
+        # literal — is left to the correspondence check)
+        mlit = re.fullmatch(r"(?:Self|Encapsulator)\s*\{(.*)\}", new_body.strip(), flags=re.S)
         vals = {}
-        for m in re.finditer(r"(\w+)\s*:\s*([^,\n}]+),", new_body):
-            if m.group(1) in fieldmap:
-                vals[fieldmap[m.group(1)]] = lean_val(m.group(2))
-        if set(vals) == set(fieldmap.values()) and all(v is not None for v in vals.values()):
+        ok = mlit is not None
+        if ok:
+            for item in [x.strip() for x in mlit.group(1).split(",") if x.strip()]:
+                mf = re.fullmatch(r"(\w+)\s*:\s*(.+)", item, flags=re.S)
+                if item == "crc_calculator" or (mf and mf.group(1) == "crc_calculator"):
+                    continue
+                if not mf or mf.group(1) not in fieldmap:
+                    ok = False
+                    break
+                vals[fieldmap[mf.group(1)]] = lean_val(mf.group(2))
+        if ok and set(vals) == set(fieldmap.values()) and all(v is not None for v in vals.values()):
             enc_new = "⟨%s, %s, %s, %s⟩" % (vals["reUse"], vals["reMax"], vals["reCur"], vals["last"])
 
     def setter(name, param=None):
